@@ -349,7 +349,8 @@ def cli_history(ctx, grog, rng, hcase, stats):
     nodes, es = G.gen_attr_graph(rng, rng.randint(4, 9), plat_p=0.0)
     for n in nodes:
         n["bin"] = False
-        n["tags"] = [t for t in n["tags"] if t != "no-cache"]   # a no-cache target re-executes in every build by design (C13)
+        # a no-cache target re-executes in every build by design (C13); `testonly` would restrict who may depend on whom (build-time check)
+        n["tags"] = [t for t in n["tags"] if t not in ("no-cache", "testonly")]
         if n["name"].endswith("test") or n["name"] == "tests":
             n["name"] = n["name"].replace("test", "tgt")     # `grog build` builds non-test targets only
     scratch = ctx.scratch(f"hist{hcase}")
